@@ -36,7 +36,8 @@ RULE = ("direct: one case = 20-50 requests against a fresh real DB drawn from th
         "0-3 deltas from {0,1,2,3,2^63,10^19,2^64-2,2^64-1}, missing partition key, expected version with deltas, dead sessions, \\x01 and '/' in index names; "
         "well-formed requests that meet state-dependent behaviour; plain user requests), classes compared, plus validateWriteRequest alone on further requests "
         "(both-empty ranges included); leader: 10-30 such requests through WriteBlock of a real rf=1 leader, restarts (preferably right after a failed write), "
-        "final restart or follower replay; distinct by generator sub-seed / request text")
+        "final restart or follower replay; 10% of the direct cases and 30% of the leader cases run with notifications disabled (E:0; in the leader leg every NewTerm of the case - start, "
+        "restarts, the follower's - carries NewTermOptions{EnableNotifications:false}); distinct by generator sub-seed / request text")
 LEGS = [
     {"name": "direct", "harness": "db", "model": "db", "n_quick": 500, "n_thorough": 30000, "args": ["-mode", "c13db"],
      "corpus": "corpus/db13/direct", "timeout": 900, "timeout_thorough": 3000},
